@@ -55,7 +55,7 @@ func senderSymbols() []string {
 		"END", "DSFIN", "CREDIT", "CREDITBATCH", "FILEDONE", "RESUMEINFO", "UNKNOWN", "TRUNC",
 		"CH0", "CH1", "CHrange", "CHlen0", "CHlong", "CHkey", "CHcrc", "CHtrunc",
 		// frames that name the zero-length file f2 (it has no chunk at all)
-		"FE2", "CHempty", "CHemptybig"}
+		"FE2", "CHempty", "CHemptybig", "FB2chunk0"}
 }
 
 func runScriptedSender(sc Script) {
@@ -102,6 +102,9 @@ func runScriptedSender(sc Script) {
 					ctrl.Write(encFileBegin("f1", 6, 0, k1, 1))
 				case "FB2":
 					ctrl.Write(encFileBegin("f2", 0, 4, k2, 1))
+				case "FB2chunk0":
+					// chunk size 0 for the file that has no chunks anyway
+					ctrl.Write(encFileBegin("f2", 0, 0, k2, 1))
 				case "RR1":
 					ctrl.Write(encResumeRequest("1111111111111111", k1))
 				case "RRunknown":
